@@ -2,11 +2,14 @@
 (* S-specification for C02.                                                               *)
 (*   state    : prf  -- the proof object built so far (every reachable state IS a proof    *)
 (*                      object; TLC explores the space of proof objects)                   *)
-(*              open -- the last top-level item is a block that is still being filled      *)
+(*              openp-- position path of the innermost block still being filled (<<>> =    *)
+(*                      none); blocks nest up to MaxDepth and several sibling blocks may   *)
+(*                      follow one another, so a later block can cite INTO an earlier,     *)
+(*                      closed one                                                         *)
 (*              w    -- number of anomalies spent (identifier # position, citation that is *)
 (*                      not an earlier visible position, stated sequent that is not what   *)
 (*                      the rule yields, ...)                                              *)
-(*   actions  : AddTop, OpenBlock, AddSub, CloseBlock -- nondeterministic construction:    *)
+(*   actions  : AddItem, OpenBlock, CloseBlock -- nondeterministic construction:           *)
 (*              identifiers from position+IdOffs (shifted / swapped / duplicated arise),   *)
 (*              citations existing / dangling / forward / self / negative / into a closed  *)
 (*              block, stated sequent absent / exact / weaker / stronger / other,          *)
@@ -19,6 +22,7 @@ EXTENDS C02_Ref, Json, IOUtils, CSV, SequencesExt
 CONSTANTS MaxItems,    \* top-level items
           MaxSub,      \* items in a block
           MaxBlocks,   \* blocks per object
+          MaxDepth,    \* nesting depth of blocks (1 = blocks at top level only)
           Budget,      \* anomalies per object
           IdOffs,      \* identifier = position + offset
           Rules,       \* rule names used by the generator
@@ -31,8 +35,8 @@ IdOffs4 == {-1, 0, 1, 2}
 
 \* rn, rg: ghost variables = RefCheck of the current object without / with gaps allowed (functions of prf,
 \* kept in the state so that each is evaluated once per object)
-VARIABLES prf, open, w, rn, rg
-vars == <<prf, open, w, rn, rg>>
+VARIABLES prf, openp, w, rn, rg
+vars == <<prf, openp, w, rn, rg>>
 
 \* ---------------------------------------------------------------- generator helpers
 \* items carry a ghost field nat: the sequent the rule yields when its citations are resolved by position
@@ -68,9 +72,28 @@ Args(rl) == CASE rl = "assume" -> {AW(atA, 0), AW(atB, 0)}
 CW(p, c) == IF Visible(p, c) /\ \A k \in 1..Len(c) : c[k] >= 0 THEN 0 ELSE 1
 RECURSIVE SumW(_, _)
 SumW(p, cs) == IF Len(cs) = 0 THEN 0 ELSE CW(p, cs[1]) + SumW(p, Tail(cs))
-TopCites(k) == { <<j>> : j \in (-1)..MaxItems }
-               \cup UNION { { <<j, i>> : i \in 0..(Len(prf[j + 1].sub) - 1) } : j \in { j \in 0..(k - 1) : prf[j + 1].rule = "subproof" } }
-SubCites(b, bid) == { <<j>> : j \in (-1)..(b + 1) } \cup { <<q, i>> : q \in {b, bid}, i \in (-1)..MaxSub }
+\* citation pool of an item about to be placed at position pos = path \o <<i>> (path = the open block, <<>> = top level)
+ItemsAt(p, path) == IF path = <<>> THEN p ELSE ItemAt(p, path).sub
+Cap(path) == IF path = <<>> THEN MaxItems ELSE MaxSub
+\* identifier prefixes: the real position of the enclosing block, or the identifier that block carries
+IdPrefixes(path) == IF path = <<>> THEN {<<>>} ELSE {path, ItemAt(prf, path).id}
+\*   siblings (earlier / self / later / dangling / negative), by position prefix or by the parent's identifier
+OwnCites(path) == IF path = <<>> THEN { <<j>> : j \in (-1)..MaxItems }
+                  ELSE { Append(q, i) : q \in IdPrefixes(path), i \in (-1)..MaxSub }
+\*   siblings of the ancestors (earlier = legitimate, the ancestor itself, the next one)
+LevelCites(path) == UNION { { Append(SubSeq(path, 1, m - 1), j) : j \in (-1)..(path[m] + 1) } : m \in 1..Len(path) }
+\*   items INSIDE a closed block that is an earlier sibling of pos or of one of its ancestors
+ClosedInner(pos) == { q \in AllPos(prf) : \E m \in 1..(Len(q) - 1) : Visible(pos, SubSeq(q, 1, m)) }
+CitePool(path, pos) == OwnCites(path) \cup LevelCites(path) \cup ClosedInner(pos)
+RECURSIVE AppendAt(_, _, _, _)
+AppendAt(items, path, k, it) == IF k > Len(path) THEN Append(items, it)
+                                ELSE [items EXCEPT ![path[k] + 1].sub = AppendAt(@, path, k + 1, it)]
+RECURSIVE CloseAt(_, _, _, _, _)
+CloseAt(items, path, k, th, nat) == IF k = Len(path) THEN [items EXCEPT ![path[k] + 1].th = th, ![path[k] + 1].nat = nat]
+                                    ELSE [items EXCEPT ![path[k] + 1].sub = CloseAt(@, path, k + 1, th, nat)]
+RECURSIVE CountBlocks(_)
+CountBlocks(items) == IF Len(items) = 0 THEN 0
+                      ELSE (IF items[1].rule = "subproof" THEN 1 + CountBlocks(items[1].sub) ELSE 0) + CountBlocks(Tail(items))
 
 \* with no budget left only the anomaly-free choices are enumerated (same successors, fewer candidates)
 OffsFor(rem) == IF rem <= 0 THEN IdOffs \cap {0} ELSE IdOffs
@@ -92,58 +115,45 @@ EmitObj(p) == IF Emit THEN CSVWrite("%1$s", << ToJson([prf |-> ToJ(p), exts |-> 
 
 \* ---------------------------------------------------------------- actions
 Item(id, rl, a, cs, th, nat) == [id |-> id, rule |-> rl, arg |-> a, prevs |-> cs, th |-> th, sub |-> <<>>, nat |-> nat]
-NBlocks == Cardinality({ i \in 1..Len(prf) : prf[i].rule = "subproof" })
-
 Ghost == rn' = RefCheck(prf', TRUE) /\ rg' = RefCheck(prf', FALSE)
-Init == prf = <<>> /\ open = FALSE /\ w = 0 /\ rn = RefCheck(<<>>, TRUE) /\ rg = RefCheck(<<>>, FALSE)
+Init == prf = <<>> /\ openp = <<>> /\ w = 0 /\ rn = RefCheck(<<>>, TRUE) /\ rg = RefCheck(<<>>, FALSE)
 
-AddTop == /\ ~open /\ Len(prf) < MaxItems
-          /\ \E rl \in Rules \ {"subproof"} : \E off \in OffsFor(Budget - w) : \E a \in Args(rl) :
-             LET k == Len(prf)  w1 == w + (IF off = 0 THEN 0 ELSE 1) + a.w IN
-             /\ w1 <= Budget
-             /\ \E cs \in Tuples(CitesFor(TopCites(k), <<k>>, Budget - w1), Arity(rl)) :
-                LET w2 == w1 + SumW(<<k>>, cs) IN
+\* a rule item (anything but a block) at the end of the innermost open block, or of the top level
+AddItem == LET path == openp  i == Len(ItemsAt(prf, path))  pos == Append(path, i) IN
+           /\ i < Cap(path)
+           /\ \E rl \in Rules \ {"subproof"} : \E off \in OffsFor(Budget - w) : \E q \in IdPrefixes(path) : \E a \in Args(rl) :
+              LET w1 == w + (IF off = 0 THEN 0 ELSE 1) + a.w IN
+              /\ w1 <= Budget
+              /\ \E cs \in Tuples(CitesFor(CitePool(path, pos), pos, Budget - w1), Arity(rl)) :
+                 LET w2 == w1 + SumW(pos, cs) IN
+                 /\ w2 <= Budget
+                 /\ LET nat == NatOf(rl, a.a, cs, prf) IN
+                    \E t \in ThOpts(rl, nat) :
+                    /\ w2 + t.w <= Budget
+                    /\ prf' = AppendAt(prf, path, 1, Item(Append(q, i + off), rl, a.a, cs, t.th, nat))
+                    /\ w' = w2 + t.w /\ UNCHANGED openp
+                    /\ (IF path = <<>> THEN EmitObj(prf') ELSE TRUE) /\ Ghost
+
+OpenBlock == LET path == openp  i == Len(ItemsAt(prf, path)) IN
+             /\ i < Cap(path) /\ Len(path) < MaxDepth /\ "subproof" \in Rules /\ CountBlocks(prf) < MaxBlocks
+             /\ \E off \in OffsFor(Budget - w) : \E q \in IdPrefixes(path) :
+                LET w2 == w + (IF off = 0 THEN 0 ELSE 1) IN
                 /\ w2 <= Budget
-                /\ LET nat == NatOf(rl, a.a, cs, prf) IN
-                   \E t \in ThOpts(rl, nat) :
-                   /\ w2 + t.w <= Budget
-                   /\ prf' = Append(prf, Item(<<k + off>>, rl, a.a, cs, t.th, nat))
-                   /\ w' = w2 + t.w /\ UNCHANGED open
-                   /\ EmitObj(prf') /\ Ghost
+                /\ prf' = AppendAt(prf, path, 1, Item(Append(q, i + off), "subproof", NoneP, <<>>, NoneS, NoneS))
+                /\ w' = w2 /\ openp' = Append(path, i) /\ Ghost
 
-OpenBlock == /\ ~open /\ Len(prf) < MaxItems /\ "subproof" \in Rules /\ NBlocks < MaxBlocks
-             /\ \E off \in IdOffs :
-                LET k == Len(prf) w2 == w + (IF off = 0 THEN 0 ELSE 1) IN
-                /\ w2 <= Budget
-                /\ prf' = Append(prf, Item(<<k + off>>, "subproof", NoneP, <<>>, NoneS, NoneS))
-                /\ w' = w2 /\ open' = TRUE /\ Ghost
-
-AddSub == /\ open
-          /\ LET b == Len(prf) - 1  blk == prf[Len(prf)]  i == Len(blk.sub) IN
-             /\ i < MaxSub
-             /\ \E rl \in Rules \ {"subproof"} : \E off \in OffsFor(Budget - w) : \E q \in {b, blk.id[1]} : \E a \in Args(rl) :
-                LET w1 == w + (IF off = 0 THEN 0 ELSE 1) + a.w IN
-                /\ w1 <= Budget
-                /\ \E cs \in Tuples(CitesFor(SubCites(b, blk.id[1]), <<b, i>>, Budget - w1), Arity(rl)) :
-                   LET w2 == w1 + SumW(<<b, i>>, cs) IN
-                   /\ w2 <= Budget
-                   /\ LET nat == NatOf(rl, a.a, cs, prf) IN
-                      \E t \in ThOpts(rl, nat) :
-                      /\ w2 + t.w <= Budget
-                      /\ prf' = [prf EXCEPT ![Len(prf)].sub = Append(@, Item(<<q, i + off>>, rl, a.a, cs, t.th, nat))]
-                      /\ w' = w2 + t.w /\ UNCHANGED open /\ Ghost
-
-CloseBlock == /\ open
-              /\ LET blk == prf[Len(prf)] IN
+\* the innermost open block is closed: its stated sequent is chosen relative to what its last item yields
+CloseBlock == /\ openp # <<>>
+              /\ LET blk == ItemAt(prf, openp) IN
                  /\ Len(blk.sub) >= 1
                  /\ LET nat == Eff(blk.sub[Len(blk.sub)]) IN
                     \E t \in ThOpts("subproof", nat) :
                     /\ w + t.w <= Budget
-                    /\ prf' = [prf EXCEPT ![Len(prf)].th = t.th, ![Len(prf)].nat = nat]
-                    /\ w' = w + t.w /\ open' = FALSE
-                    /\ EmitObj(prf') /\ Ghost
+                    /\ prf' = CloseAt(prf, openp, 1, t.th, nat)
+                    /\ w' = w + t.w /\ openp' = SubSeq(openp, 1, Len(openp) - 1)
+                    /\ (IF Len(openp) = 1 THEN EmitObj(prf') ELSE TRUE) /\ Ghost
 
-Next == AddTop \/ OpenBlock \/ AddSub \/ CloseBlock
+Next == AddItem \/ OpenBlock \/ CloseBlock
 Spec == Init /\ [][Next]_vars
 
 \* ---------------------------------------------------------------- properties of the reference checker
